@@ -201,3 +201,14 @@ def eval_cond(c, assignment):
 def show(x, n=160):
     s = repr(x)
     return s if len(s) <= n else s[:n] + '...'
+
+
+def const_ratio(p, q):
+    """Fraction c with p == c*q for Polys p, q, else None."""
+    if p.is_zero() or q.is_zero():
+        return None
+    m = next(iter(q.t))
+    if m not in p.t:
+        return None
+    c = p.t[m] / q.t[m]
+    return c if p == q.scale(c) else None
